@@ -108,12 +108,12 @@ class Gen:
             return v
         return tok.choose_free(self.ex, k, tag)
 
-    def item(self, hidden, in_adjacent=False):
+    def item(self, hidden, in_adjacent=False, only=None):
         ex, L = self.ex, self.L
         k = self.n
         self.n += 1
         # adjacent groups are made of flags, arguments and positionals (multi-value options, option structs)
-        kind = ["flag", "arg", "pos", "cmd"][self.pick(3 if in_adjacent else 4, "leaf")]
+        kind = only or ["flag", "arg", "pos", "cmd"][self.pick(3 if in_adjacent else 4, "leaf")]
         has_help = self.pick(2, "help") == 1
         help_ = SOME(self.doc("help-%d" % k)) if has_help else NONE
         iv = lambda n: L.variant_index("Item", n)
@@ -156,7 +156,7 @@ class Gen:
             m, kind = self.item(False, in_adjacent)
             return m
         self.budget -= 1
-        kinds = ["item", "and", "or", "optional", "many", "required", "subsection", "suffix", "custom", "skip", "adjacent"]
+        kinds = ["item", "and", "or", "optional", "many", "required", "subsection", "suffix", "custom", "skip", "adjacent", "strict"]
         k = kinds[self.pick(len(kinds), "node")]
         if k == "item":
             self.budget += 1
@@ -180,6 +180,10 @@ class Gen:
             # `hide`: the parser's metadata is replaced by Skip; remember what is hidden
             m, kind = self.item(True)
             return Adt("Meta", mv("Skip"), ())
+        if k == "strict":
+            # `positional(..).strict()`: the positional's item wrapped in Meta::Strict
+            self.budget += 1
+            return Adt("Meta", mv("Strict"), (self.item(False, only="pos")[0],))
         if k == "adjacent":
             a = self.item(False, True)[0]
             b = self.tree(depth - 1, True)
@@ -428,7 +432,7 @@ def run_order_job(job, build):
 
 def make_jobs(tier, seed, build):
     jobs = []
-    nshards = 11
+    nshards = 12
     for depth, budget in ((1, 1), (2, 2)) if tier == "quick" else ((1, 1), (2, 2), (2, 3)):
         for a in range(nshards):
             for b in range(nshards if depth > 1 else 1):
